@@ -207,6 +207,15 @@ fn meta(prop: &str) -> (&'static str, String, Value, Vec<String>) {
     }
 }
 
+fn tier_extra(prop: &str, tier: &str, runs: u64) -> Value {
+    match (prop, tier) {
+        ("C13", "thorough") => serde_json::json!({"enumerated": format!("cases 0..{} enumerate every single-bit position (4112 = 512 data bytes + 2 CRC bytes) of a data block for the three card kinds, once in a single-block read and once in the middle block of a three-block read; the remaining cases are sampled sessions", sdrun::ENUM_CASES.min(runs))}),
+        ("C11", "thorough") => serde_json::json!({"fault_points_per_history": "all (no sampling cap below 100000)"}),
+        ("C17", "thorough") => serde_json::json!({"fragment_boundaries": "every fragment gets PRNG-drawn code-unit classes at both of its boundary units (7 x 7 class pairs covered many times over)"}),
+        _ => Value::Null,
+    }
+}
+
 fn runs_for(prop: &str, tier: &str) -> u64 {
     let quick = match prop {
         "C09" | "C10" => 60_000,
@@ -247,7 +256,7 @@ fn cmd_check(prop: &str, tier: &str) -> i32 {
         "histories, geometries, trees and timings are sampled, not enumerated: a clean batch is evidence, not proof".to_string(),
     ];
     assumptions.extend(extra_assumptions);
-    let cfg = BatchCfg { prop, tier: tier.to_string(), seed, runs, jobs, budget_s: budget, level, rule, engine: engine_of(prop), components, assumptions };
+    let cfg = BatchCfg { prop, tier: tier.to_string(), seed, runs, jobs, budget_s: budget, level, rule, engine: engine_of(prop), components, assumptions, extra: tier_extra(prop, tier, runs) };
     println!("check {} tier={} seed={} runs<={} jobs={} engine={}", prop, tier, seed, runs, jobs, cfg.engine);
     let res = run_batch(&cfg, &known, |s, i| if prop == "C13" && thorough() && i < sdrun::ENUM_CASES { sdrun::sd_eval("C13", &sdrun::enumerated_flip_case(i)) } else { run_case(prop, s) });
     write_evidence(prop, &res.evidence);
